@@ -124,7 +124,7 @@ static int cmp_problem (const RefLP * G, const RefLP * M, const CmpOpt * o, char
 /* ====================================================================== feature deviations (family wr) */
 static const char *NAMES[] = { "x9", "2x", ".x", "a^b", "a b", "a:b", "st", "end", "free", "inf", "e1", "c1", "obj", "@LONG" };
 #define NNAMES 14
-enum { D_ROWKIND, D_BOUND, D_COEF, D_RHS, D_OBJ, D_MAX, D_INT, D_CNAME, D_RNAME, D_EXTRACOL, D_EXTRAROW, D_EMPTYROW, D_WIDE, D_TARGET };
+enum { D_ROWKIND, D_BOUND, D_COEF, D_RHS, D_OBJ, D_MAX, D_INT, D_CNAME, D_RNAME, D_EXTRACOL, D_EXTRAROW, D_EMPTYROW, D_WIDE, D_TARGET, D_ROUTE };
 typedef struct { int axis, target, val; } Dev;
 static Dev devs[200]; static int ndev;
 static void build_devs (void)
@@ -143,6 +143,10 @@ static void build_devs (void)
 	ADD (D_EXTRACOL, 0, 0); ADD (D_EXTRAROW, 0, 0); ADD (D_EMPTYROW, 0, 0);
 	for (int v = 0; v < 3; v++) ADD (D_WIDE, 0, v);
 	for (int v = 0; v < 3; v++) ADD (D_TARGET, 0, v);
+	/* appended later (keeps the item numbers of the older deviations' singletons stable): a wide objective that wraps,
+	 * and the two other construction routes (rows before columns gives a non-identity structural map) */
+	ADD (D_WIDE, 0, 3);
+	for (int v = 0; v < 2; v++) ADD (D_ROUTE, 0, v);
 #undef ADD
 }
 static long choose (int n, int k) { if (k < 0 || k > n) return 0; long r = 1; for (int i = 1; i <= k; i++) r = r * (n - k + i) / i; return r; }
@@ -184,13 +188,14 @@ static void set_bounds (RefLP * M, int c, const char *lo, const char *up)
 	if (lo) Qs (M->lo[c], lo); if (up) Qs (M->up[c], up);
 }
 /* returns 1 when the deviation list is contradictory */
+static int g_route = ROUTE_ROWS;
 static int apply_devs (RefLP * M, const int *set, int k, int *target, SBuf * desc)
 {
 	static const char *kinds[5] = { "G", "E", "R0", "R1", "R5/2" };
 	static const char *coefv[6] = { "-1", "1/3", BIGS, "1/" BIGS, "-7/2", "0" };
 	static const char *rhsv[4] = { "-1", "1/3", "0", BIGS };
 	static const char *objv[4] = { "0", "-1", "1/3", BIGS };
-	*target = -1;
+	*target = -1; g_route = ROUTE_ROWS;
 	for (int i = 0; i < k; i++) for (int j = i + 1; j < k; j++) if (devs[set[i]].axis == devs[set[j]].axis && devs[set[i]].target == devs[set[j]].target) return 1;
 	mpq_t a, z; mpq_init (a); mpq_init (z);
 	for (int i = 0; i < k; i++) {
@@ -219,12 +224,21 @@ static int apply_devs (RefLP * M, const int *set, int k, int *target, SBuf * des
 		case D_EXTRACOL: { Qs (a, "1"); int c = ref_add_col (M, a, z, 0, z, 1, "z"); Qs (REF_A (M, 0, c), "1"); sb_printf (desc, "extracol "); break; }
 		case D_EXTRAROW: { Qs (a, "1"); int r = ref_add_row (M, 'G', a, NULL, "c3"); Qs (REF_A (M, r, 0), "1"); Qs (REF_A (M, r, 1), "2"); sb_printf (desc, "extrarow "); break; }
 		case D_EMPTYROW: { Qs (a, "5"); ref_add_row (M, 'L', a, NULL, "cempty"); sb_printf (desc, "emptyrow "); break; }
-		case D_WIDE: {
+		case D_WIDE: if (d.val == 3) {
+			/* 12 long-named columns with mixed-sign rational costs: the objective needs several lines */
+			for (int j = 0; j < 12; j++) {
+				char nm[80]; memset (nm, 'a' + j, 60); nm[60] = 0; nm[0] = 'W';
+				mpq_set_si (a, (j % 3 == 1) ? -(7 + j) : (5 + j), 3 + (j % 4)); mpq_canonicalize (a);
+				int c = ref_add_col (M, a, z, 0, z, 1, nm); mpq_set_si (REF_A (M, j % 2, c), (j % 4 == 2) ? -1 : 2, 1);
+			}
+			sb_printf (desc, "wideobj+12 "); break;
+		} else {
 			int kx = d.val == 0 ? 3 : d.val == 1 ? 38 : 298; char nm[24];
 			for (int j = 0; j < kx; j++) { snprintf (nm, sizeof nm, "w%d", j + 1); Qs (a, "0"); int c = ref_add_col (M, a, z, 0, z, 1, nm); mpq_set_si (REF_A (M, 0, c), (j % 5 == 3) ? -(j % 3 + 1) : (j % 3 + 1), 1); }
 			sb_printf (desc, "wide+%d ", kx); break;
 		}
 		case D_TARGET: *target = d.val; sb_printf (desc, "target%d ", d.val); break;
+		case D_ROUTE: g_route = d.val == 0 ? ROUTE_COLS : ROUTE_ROWS1; sb_printf (desc, "route=%s ", d.val == 0 ? "rows-first" : "row-by-row"); break;
 		}
 	}
 	/* two columns / rows must not end up with the same name */
@@ -247,7 +261,7 @@ static int precondition (const RefLP * M)
 }
 static mpq_QSprob build_with_int (const RefLP * M)
 {
-	mpq_QSprob p = qsx_build (M, ROUTE_ROWS, 0);
+	mpq_QSprob p = qsx_build (M, g_route, 0);
 	if (!p) return NULL;
 	int any = 0; for (int c = 0; c < M->n; c++) if (M->isint[c]) any = 1;
 	if (any) {
